@@ -20,7 +20,7 @@ from .. import snutil as su
 from ..core import Check, Part, Result, must, safe_deepcopy
 
 OBSERVERS = ['export', 'export_nobn', 'summary', 'cost', 'get_cost', 'swap_spec', 'str']
-MUTATORS = ['forward', 'step', 'train', 'eval', 'mixed_mode', 'nas_only', 'net_only']
+MUTATORS = ['forward', 'step', 'train', 'eval', 'mixed_mode', 'nas_only', 'net_only', 'poke']
 ALPHABET = OBSERVERS + MUTATORS
 
 
@@ -178,6 +178,16 @@ def do_mutator(ad: Adapter, m, op, k):
         leaves = [mod for _, mod in m.named_modules() if not list(mod.children())]
         for mod in leaves[1::2]:
             mod.eval()
+    elif op == 'poke':
+        # the architectural parameters are rewritten by hand THROUGH .data (the library's own
+        # idiom; no version-counter bump): every mask / coefficient vector is reversed
+        with torch.no_grad():
+            for n, p in m.named_nas_parameters():
+                if n.rsplit('.', 1)[-1] in ('alpha', 'beta', 'gamma') and p.dim() >= 1 \
+                        and p.shape[0] > 1:
+                    p.data.copy_(p.data.flip(0).clone())
+        torch.manual_seed(3000 + k)
+        ng.call(m, x)
     elif op == 'nas_only':
         m.train_nas_only()          # a search phase with the network weights frozen
     elif op == 'net_only':
@@ -324,6 +334,20 @@ def run_history(ad: Adapter, ops, res: Result):
     if [(n, p.requires_grad) for n, p in A.named_parameters()] != [
             (n, p.requires_grad) for n, p in B.named_parameters()]:
         res.bad('twin-trainability-flags-diverged')
+    # ... and what the observed model reports / exports NOW is what its never-observed twin does
+    # (an observer that leaves something behind for later observer calls shows up here)
+    if not res.discrepancies and n_obs:
+        sa, sb = must(res, 'summary', A.summary), must(res, 'summary', B.summary)
+        if sa is not None and sb is not None and repr(sa) != repr(sb):
+            res.bad('observed-model-reports-another-architecture-than-its-unobserved-twin')
+        else:
+            def _exp(m):
+                try:
+                    return structure(m.export())
+                except Exception as ex:  # noqa
+                    return f"raised:{type(ex).__name__}"
+            if _exp(A) != _exp(B):
+                res.bad('observed-model-exports-another-network-than-its-unobserved-twin')
     return n_obs
 
 
@@ -446,7 +470,7 @@ CHECK = Check(
     parts=[
         Part('short-histories', oracle, enumerate=enum_short, enum_parallel=True,
              shards={'quick': 8, 'thorough': 16},
-             exhaustive_note='ALL sequences of length <= 2 (thorough: <= 3) over the 14-letter '
+             exhaustive_note='ALL sequences of length <= 2 (thorough: <= 3) over the 15-letter '
                              'alphabet containing at least one observer, on one fixed model per '
                              'method (MPS and SuperNet also before any forward pass)'),
         Part('pit', oracle, strategy=pit_cases(),
